@@ -1,5 +1,5 @@
 (* Property C11 — TS packet header and adaptation field per ISO 13818-1 (theorems only; proofs in Proofs/). *)
-From Coq Require Import ZArith List.
+From Coq Require Import ZArith List Lia.
 Require Import Base.Bits Base.Iter Base.Wr Gen.Types Model.Clock Model.Packet Spec.PesSpec Spec.PacketSpec
   Proofs.ClockProofs Proofs.PacketProofs Proofs.PacketWrite Proofs.PacketRoundTrip Proofs.PacketRef Proofs.PacketExamples.
 Import ListNotations.
@@ -64,6 +64,19 @@ Print Assumptions C11_write_ref_bits.
 Theorem C11_parse_ref : forall p, wf_packet p -> parse_packet_bytes (ref_packet_bytes p) = Ok (observed p).
 Proof. exact parse_ref_packet. Qed.
 Print Assumptions C11_parse_ref.
+
+(* ... whatever the values of the adaptation field stuffing bytes (the reference layout with arbitrary stuffing) *)
+Theorem C11_parse_ref_any_stuffing : forall p sb, wf_packet p -> Z.of_nat (length sb) = stuffing_of p -> bytes_ok sb ->
+  parse_packet_bytes (ref_packet_bytes_stuffed p sb) = Ok (observed p).
+Proof. exact parse_ref_any_stuffing. Qed.
+Print Assumptions C11_parse_ref_any_stuffing.
+Example C11_parse_ref_any_stuffing_inhabited :
+  wf_packet ex_packet /\ Z.of_nat (length [0; 1; 254]) = stuffing_of ex_packet /\ bytes_ok [0; 1; 254] /\
+  ref_packet_bytes_stuffed ex_packet [0; 1; 254] <> ref_packet_bytes ex_packet.
+Proof.
+  split; [exact ex_packet_wf|]. split; [reflexivity|]. split; [repeat constructor; unfold byte_ok; lia|].
+  intros H. vm_compute in H. discriminate.
+Qed.
 
 (* a packet obtained from a conformant 188-byte buffer is re-emitted byte for byte *)
 Theorem C11_reemit : forall bs p, conformant bs -> parse_packet_bytes bs = Ok p -> write_packet p 188 = Ok bs.
